@@ -3,6 +3,6 @@ CHECKS = [
           technique="property-based testing (rapid) of concurrent scenarios under the Go race detector: generated actor scripts against the full injected app in a -race child process, reports normalised to frame-pair signatures",
           quick=dict(checks=12, budget_s=80, timeout_s=900),
           thorough=dict(checks=40, shards=16, budget_s=540, timeout_s=1800),
-          level_text="Generated scenarios of 6-10 concurrent looping actors (ingest on all HTTP endpoints for own/foreign traces, peer ingest, queries, health, config/rules reloads, stress-mode flips, membership churn, metrics reads, forced eviction, Stop) against the real app; oracle = no race-detector report with a refinery frame. Exploration: the detector only sees interleavings that occur.",
+          level_text="Generated scenarios of 6-10 concurrent looping actors (ingest on all HTTP endpoints for own/foreign traces, peer ingest, queries, health, config/rules reloads, stress-mode flips, membership churn, metrics reads, forced eviction, Stop) against the real app; half of the scenarios are drop-heavy with tiny SampleCache.DroppedSize/KeptSize and producers of distinct short traces so that the cuckoo/LRU maintenance paths (future filter at 50% load, cycling, eviction, SetNextCapacity/Resize on reload) run under traffic (class histogram counts how often); oracle = no race-detector report with a refinery frame. Exploration: the detector only sees interleavings that occur.",
           level_note="Child process per scenario; schedules are not reproducible, --replay re-runs the stored scenario up to 8 times. gRPC and Redis peers are not driven."),
 ]
